@@ -23,7 +23,7 @@ ASSUMPTIONS = ['referenced configurable g returns a fresh list tagged with a glo
                'the consumer returns what it received; the harness mutates it afterwards (same effect as in-body)']
 WITNESSES = ['fresh_per_call', 'not_called_when_positional', 'not_called_when_keyword', 'scoped_ref_exact_scope',
              'unscoped_ref_ambient_scope', 'unevaluated_delivers_registry_version', 'mutation_invisible_later',
-             'nested_depth3', 'two_refs_two_calls']
+             'nested_depth3', 'two_refs_two_calls', 'references_as_dict_keys']
 
 CALLS = []
 
@@ -46,6 +46,12 @@ def setup():
   def g(tag='default'):
     CALLS.append(gin.current_scope())
     return ['g', len(CALLS), tag]
+
+  @gin.configurable(module='c04')
+  def gk(tag='default'):
+    """Like g, but returns something hashable (usable as a dict key or in a set-like position)."""
+    CALLS.append(gin.current_scope())
+    return ('gk', '/'.join(gin.current_scope()), tag)
 
   @gin.configurable(module='c04')
   def consumer(p=None, q=None):
@@ -75,7 +81,7 @@ MUTATIONS = ['none', 'mutate']
 
 def bound(tier):
   return '%d shapes x %d reference scopes x call sequences of length<=%d over (override x ambient x mutation)' % (
-      len(SHAPES), len(REF_SCOPES), 2 if tier == 'quick' else 3)
+      len(SHAPES), len(REF_SCOPES), 3 if tier == 'quick' else 3)
 
 
 def render(t, rscope):
@@ -275,8 +281,56 @@ def run_sequence(sname, rscope, seq, res):
       return
 
 
+DICTKEY_CASES = {
+    # text of the value -> expected delivered dict given the ambient scope string
+    'two_scopes': ("{@s/c04.gk(): 1, @x/y/c04.gk(): 2}", lambda amb: {('gk', 's', 'KT'): 1, ('gk', 'x/y', 'KT'): 2}, 2),
+    'three_with_ambient': ("{@s/c04.gk(): 1, @c04.gk(): 2, @t/c04.gk(): 3}",
+                           lambda amb: {('gk', 's', 'KT'): 1, ('gk', amb, 'KT'): 2, ('gk', 't', 'KT'): 3}, 3),
+    'macro_keys': ("{%ka: 1, %kb: 2, %a/b: 3}", lambda amb: {'A': 1, 'B': 2, 'AB': 3}, 0),
+    'key_and_value': ("{@s/c04.gk(): @t/c04.gk(), 'lit': (@s/c04.gk(),)}",
+                      lambda amb: {('gk', 's', 'KT'): ('gk', 't', 'KT'), 'lit': (('gk', 's', 'KT'),)}, 3),
+    'nested_key_dicts': ("[{@s/c04.gk(): 1}, {@t/c04.gk(): 1}]",
+                         lambda amb: [{('gk', 's', 'KT'): 1}, {('gk', 't', 'KT'): 1}], 2),
+    'tuple_key': ("{(@s/c04.gk(), @t/c04.gk()): 1}", lambda amb: {(('gk', 's', 'KT'), ('gk', 't', 'KT')): 1}, 2),
+}
+
+
+def run_dictkey(name, ai, res):
+  desc = ['dictkey', name, ai]
+  text, exp_fn, ncalls = DICTKEY_CASES[name]
+  harness.hard_reset()
+  del CALLS[:]
+  gin.parse_config("ka = 'A'\nkb = 'B'\na/b = 'AB'\nc04.gk.tag = 'KT'\nc04.consumer.p = " + text)
+  ambient = AMBIENT[ai]
+  res.case(('dictkey', name, ai), True)
+  cs = gin.config_str()
+  for rnd in range(2):
+    base = len(CALLS)
+    try:
+      with gin.config_scope(list(ambient) if ambient else None):
+        got = CONSUMER()
+    except Exception as e:  # pylint: disable=broad-except
+      res.violation('call_raised', '%r: %r' % (desc, e), desc)
+      return
+    want = exp_fn('/'.join(ambient))
+    if got != want or len(CALLS) - base != ncalls:
+      res.violation('reference_as_dict_key', '%r: value %s delivered %r (%d evaluations), expected %r (%d evaluations)' %
+                    (desc, text, got, len(CALLS) - base, want, ncalls), desc)
+      return
+  for piece in [t for t in text.replace('{', ' ').replace('}', ' ').replace(',', ' ').replace(':', ' ').replace('(', ' ')
+                .replace(')', ' ').replace('[', ' ').replace(']', ' ').split() if t[0] in '@%']:
+    if piece.rstrip('()').replace('c04.', '') not in cs.replace('c04.', ''):
+      res.violation('config_str_lost_reference', '%r: config_str no longer mentions %s:\n%s' % (desc, piece, cs), desc)
+      return
+  res.w('references_as_dict_keys')
+  res.outcome('dictkey')
+
+
 def gen(tier):
-  n = 2 if tier == 'quick' else 3
+  for name in DICTKEY_CASES:
+    for ai in range(len(AMBIENT)):
+      yield 'DICTKEY', name, ai
+  n = 3
   call_menu = list(itertools.product(OVERRIDES, range(len(AMBIENT)), MUTATIONS))
   for sname in SHAPES:
     for rscope in REF_SCOPES:
@@ -298,6 +352,9 @@ def run_shard(i, tier):
   for n, (sname, rscope, seq) in enumerate(gen(tier)):
     if n % NSH != i:
       continue
+    if sname == 'DICTKEY':
+      run_dictkey(rscope, seq, res)
+      continue
     run_sequence(sname, rscope, seq, res)
     if n % 4001 == i:
       res.sample({'shape': render(SHAPES[sname], rscope), 'calls': [list(c) for c in seq]})
@@ -309,6 +366,10 @@ def run_shard(i, tier):
 
 def replay(desc):
   res = core.Result()
+  if desc[0] == 'dictkey':
+    run_dictkey(desc[1], desc[2], res)
+    harness.hard_reset()
+    return res
   run_sequence(desc[0], desc[1], [tuple(c) for c in desc[2]], res)
   harness.hard_reset()
   return res
